@@ -8,8 +8,9 @@ META = {
         "part, tuple t = (4*(i//5) + i%5) mod T of the finite space (L, validity pattern, order, "
         "periodic) in the fixed order [for L in 1..Lmax: for pattern in 0..2^L-1: for order in "
         "(1,2): for periodic in (False,True)], Lmax=7 quick / 11 thorough, T=4*(2^(Lmax+1)-2) = "
-        "1016 / 16376; the default case counts (5*T/4) visit every tuple exactly once; only cell size, origin, dimension name, polynomial "
-        "coefficients and the random data are drawn from the rng. i%5 == 4: random 1-4-d meshes, "
+        "1016 / 16376; the default case counts (5*T/4 = 1270 / 20470) visit every tuple exactly "
+        "once; only cell size, origin, dimension name, polynomial coefficients and the random "
+        "data are drawn from the rng. i%5 == 4: random 1-4-d meshes, "
         "sub-kind (i//5)%3 = open / periodic / with subregions, random axis, order, 1-4 "
         "components, cell decade 1e-9..1e3, random validity. "
         "Signature: exhaustive = (L, number of runs, longest run capped at 5, order, periodic, "
